@@ -4,7 +4,8 @@
 From Coq Require Import ZArith List Bool Reals.
 Import ListNotations.
 From Osmo Require Import Base.DecModel C13.Common C13.Sqrt C13.SqrtProofs C13.SigFig C13.SigFigProofs
-  C13.BinSearch C13.BinSearchProofs C13.Exp2 C13.Exp2Real C13.Exp2Proofs.
+  C13.BinSearch C13.BinSearchProofs C13.Exp2 C13.Exp2Real C13.Exp2Proofs
+  C13.Log2 C13.Log2Proofs.
 Open Scope Z_scope.
 
 (* ---------- monotone square roots (integers only, axiom-free) ---------- *)
@@ -177,3 +178,53 @@ Example C13_exp2_nonvacuous :
   exp2 (15 * 10 ^ 35) = Ok 2828427124746190097603377448419396158 /\          (* 2^1.5 = 2.8284271247461900976033774484193961571... *)
   exp2 0 = Ok P36 /\ exp2 (512 * P36) = Ok (2 ^ 512 * P36) /\ exp2 (512 * P36 + 1) = Err EExpTooLarge /\ exp2 (-1) = Err ENegExponent.
 Proof. vm_compute. repeat split. Qed.
+
+(* ---------- LogBase2 and the derived logarithms (real analysis) ---------- *)
+
+(* log2R x = ln x / ln 2.  For every representable positive argument (bit length of the mantissa <= 1144, the bound
+   osmomath asserts) the digit-by-digit logarithm is within 3300 ulps = 3.3e-33 of log2 x - inside the documented 1e-32:
+   exact left-normalisation, <= 2 ulps per right-normalisation shift (<= 1144 shifts), and per squaring round one ulp for
+   the truncated bit value plus the correctly rounded square; 2^-maxLog2Iterations for the unread tail. *)
+Theorem C13_log2_error : forall x r, log_base2 x = Ok r -> (bitlen x <= 1144)%Z ->
+  (0 < x)%Z /\ (Rabs (bdR r - log2R (bdR x)) <= 3300 * u36)%R.
+Proof. exact log_base2_err. Qed.
+Print Assumptions C13_log2_error.
+Theorem C13_log2_error_documented : forall x r, log_base2 x = Ok r -> (bitlen x <= 1144)%Z ->
+  (Rabs (bdR r - log2R (bdR x)) <= 1 / 10 ^ 32)%R.
+Proof. exact log_base2_err_documented. Qed.
+Print Assumptions C13_log2_error_documented.
+
+(* derived logarithms = Quo by log2(base): the base-2 error scaled by the base change, with the divisor's own error
+   (1 ulp for the stored constants - proved correctly rounded by Interval -, 3300 ulps for a computed one), plus one ulp
+   for the final rounding *)
+Theorem C13_ln_error : forall x r, ln_bigdec x = Ok r -> (bitlen x <= 1144)%Z ->
+  (0 < x)%Z /\ (Rabs (bdR r - ln (bdR x)) <= (3300 * u36 + Rabs (ln (bdR x)) * u36) / (1 / ln 2 - u36) + u36)%R.
+Proof. exact ln_bigdec_err. Qed.
+Print Assumptions C13_ln_error.
+Theorem C13_ticklog_error : forall x r, tick_log x = Ok r -> (bitlen x <= 1144)%Z ->
+  let C0 := log2R (10001 / 10000) in
+  (0 < x)%Z /\ (Rabs (bdR r - log2R (bdR x) / C0) <= (3300 * u36 + Rabs (log2R (bdR x) / C0) * u36) / (C0 - u36) + u36)%R.
+Proof. exact tick_log_err. Qed.
+Print Assumptions C13_ticklog_error.
+Theorem C13_custom_base_log_error : forall x base r, custom_base_log x base = Ok r -> (bitlen x <= 1144)%Z -> (bitlen base <= 1144)%Z ->
+  let C0 := log2R (bdR base) in
+  (0 < x)%Z /\ (0 < base)%Z /\ base <> P36 /\
+  ((3300 * u36 < Rabs C0)%R ->
+   (Rabs (bdR r - log2R (bdR x) / C0) <= (3300 * u36 + Rabs (log2R (bdR x) / C0) * (3300 * u36)) / (Rabs C0 - 3300 * u36) + u36)%R).
+Proof. exact custom_base_log_err. Qed.
+Print Assumptions C13_custom_base_log_error.
+
+Theorem C13_log2_domain_fails : forall x, x <= 0 -> log_base2 x = Err ELogDomain /\ ln_bigdec x = Err ELogDomain /\ tick_log x = Err ELogDomain.
+Proof. intros x H. split; [apply log_base2_domain|split; [apply ln_bigdec_domain|apply tick_log_domain]]; assumption. Qed.
+Print Assumptions C13_log2_domain_fails.
+Theorem C13_custom_base_log_domain_fails : forall x base,
+  (base <= 0 \/ base = P36 -> custom_base_log x base = Err ELogBase) /\
+  (x <= 0 -> 0 < base -> base <> P36 -> custom_base_log x base = Err ELogDomain).
+Proof. intros x base. split; [apply custom_base_log_base_domain|apply custom_base_log_arg_domain]. Qed.
+Print Assumptions C13_custom_base_log_domain_fails.
+
+Example C13_log2_nonvacuous :
+  log_base2 (3 * P36) = Ok 1584962500721156181453738943947816490 /\       (* log2 3 = 1.58496250072115618145373894394781650875... *)
+  bitlen (3 * P36) <= 1144 /\ log_base2 P36 = Ok 0 /\ log_base2 1 = Ok (-119589411415945044523331499461618046348) /\
+  log_base2 0 = Err ELogDomain /\ custom_base_log (8 * P36) (2 * P36) = Ok (3 * P36) /\ custom_base_log 5 P36 = Err ELogBase.
+Proof. vm_compute. repeat split; discriminate. Qed.
